@@ -519,3 +519,90 @@ Definition handle5 (line : str) : str :=
   | [] => S_ "badrequest"
   | cmd :: ts => match handle_main cmd ts with Some r => r | None => handle4 line end
   end.
+
+(* ---------- histories of runs, edits and kills against the cache machine (Cache.v) ---------- *)
+Require Import Laze.model.Cache.
+
+Definition cargs_of (bin : N) (c : cli) : cargs :=
+  {| ca_bin := bin; ca_le := cl_le c; ca_builders := cl_builders c; ca_apps := cl_apps c; ca_local := cl_local c;
+     ca_select := cl_select c; ca_disable := cl_disable c; ca_define := cl_define c;
+     ca_partition := match cl_partition c with Some (_, m, n) => Some (N.to_nat m, N.to_nat n) | None => None end |}.
+
+Definition rd_vtree : rd vtree := rd_list (rd_bind rd_s (fun f => rd_bind rd_n (fun v => rd_ret (f, v)))).
+Definition rd_store : rd (list (str * N * list ydoc)) :=
+  rd_list (rd_bind rd_s (fun f => rd_bind rd_n (fun v => rd_bind (rd_list rd_ydoc) (fun ds => rd_ret (f, v, ds))))).
+Definition store_of (l : list (str * N * list ydoc)) (f : str) (v : N) : list ydoc :=
+  match find (fun x => str_eqb (fst (fst x)) f && N.eqb (snd (fst x)) v) l with Some x => snd x | None => [] end.
+
+Inductive hop := HRun (a : cargs) (stop : nat) (m : main_req) | HEdit (t : vtree).
+Definition rd_hop : rd hop := fun ts =>
+  match ts with
+  | t :: r =>
+      if str_eqb t (S_ "R") then
+        rd_bind rd_n (fun bin => rd_bind rd_n (fun stop => rd_bind rd_cli (fun c => rd_bind rd_main_req (fun m =>
+          rd_ret (HRun (cargs_of bin c) (N.to_nat stop) m))))) r
+      else if str_eqb t (S_ "E") then rd_bind rd_vtree (fun t => rd_ret (HEdit t)) r
+      else None
+  | [] => None end.
+
+Definition show_nfile (n : nfile gen_result) : str :=
+  match n with NAbsent => S_ "A" | NPartial => S_ "P" | NComplete r => S_ "C" ++ show_dec (siphash13 (gr_file r)) end.
+
+Definition main_outcome (a : cargs) (m : main_req) (g : gen_result) : str :=
+  let file := path_push (le_build_dir (ca_le a))
+                (match ca_local a with Some _ => S_ "build-local.ninja" | None => S_ "build-global.ninja" end) in
+  let mc := {| mc_builders := ca_builders a; mc_apps := ca_apps a; mc_task := mr_task m;
+               mc_generate_only := mr_generate_only m; mc_multiple := mr_multiple m;
+               mc_keep_going := mr_keep_going m; mc_jobs := mr_jobs m; mc_verbose := mr_verbose m |} in
+  let o := main_after_generate (fun _ => mr_ninja_ok m)
+             (fun b x => negb (existsb (fun p => str_eqb (fst p) b && str_eqb (snd p) x) (mr_failing m)))
+             (gr_builds g) file mc in
+  show_dec (N.of_nat (o_exit o)) ++ S_ " " ++ show_dec (N.of_nat (length (o_actions o))) ++ flat_map show_action (o_actions o).
+
+(* one line per history: for every op  "| <H|G|F|K|E> <ninja A|P|C<hash>> <cache 0|1> [exit nactions actions] [X <file>]" *)
+Fixpoint run_hist (EVt : str -> evr) (st : str -> N -> list ydoc) (w : world vtree cargs tstate gen_result)
+         (ops : list hop) : res str :=
+  match ops with
+  | [] => Ok []
+  | HEdit t :: rest =>
+      rmap (fun s => S_ " | E" ++ s)
+           (run_hist EVt st (cstep siphash13 EVt st w (Edit t)) rest)
+  | HRun a k m :: rest =>
+      let '(w', o) := crun siphash13 EVt st a k w in
+      let sl := get_slot _ _ _ _ w' (cis_local a) in
+      let state := S_ " " ++ show_nfile (s_ninja _ _ _ sl) ++
+                   (match s_cache _ _ _ sl with Some _ => S_ " 1" | None => S_ " 0" end) in
+      match o with
+      | OFail (FErr (ENeedEv e)) => Err (ENeedEv e)
+      | OFail (FPanic n) => Panic n
+      | OFail FFuel => Fuel
+      | OFail (FErr _) => rmap (fun s => S_ " | F" ++ state ++ s) (run_hist EVt st w' rest)
+      | OKilled => rmap (fun s => S_ " | K" ++ state ++
+                                  (match s_ninja _ _ _ sl with NComplete g => S_ " X " ++ hex (gr_file g) | _ => [] end) ++ s)
+                        (run_hist EVt st w' rest)
+      | OHit g => rmap (fun s => S_ " | H" ++ state ++ S_ " " ++ main_outcome a m g ++ s) (run_hist EVt st w' rest)
+      | ORegen g => rmap (fun s => S_ " | G" ++ state ++ S_ " " ++ main_outcome a m g ++ S_ " X " ++ hex (gr_file g) ++ s)
+                         (run_hist EVt st w' rest)
+      end
+  end.
+
+Definition handle_hist (cmd : str) (ts : list str) : option str :=
+  if str_eqb cmd (S_ "hist") then
+    Some (run (rd_bind rd_store (fun st => rd_bind rd_vtree (fun t0 => rd_bind (rd_list rd_hop) (fun ops =>
+               rd_bind rd_evtable (fun ev => rd_ret (st, t0, ops, ev)))))) ts
+              (fun '(st, t0, ops, ev) =>
+                 (* side condition of C08_hit_is_fresh, evaluated for every tree of the history:
+                    the loaded contexts have distinct names *)
+                 let trees := t0 :: flat_map (fun o => match o with HEdit t => [t] | _ => [] end) ops in
+                 let names_ok := forallb (fun t => match load (ytree_of (store_of st) t) project_file with
+                                                   | Ok b => list_eqb str_eqb (nodup_str (bag_names b)) (bag_names b)
+                                                   | _ => true end) trees in
+                 show_res (fun s => S_ "ok" ++ (if names_ok then S_ " D1" else S_ " D0") ++ s)
+                          (run_hist ev (store_of st) (fresh _ _ _ _ t0) ops)))
+  else None.
+
+Definition handle6 (line : str) : str :=
+  match tokens line with
+  | [] => S_ "badrequest"
+  | cmd :: ts => match handle_hist cmd ts with Some r => r | None => handle5 line end
+  end.
